@@ -25,11 +25,13 @@ import (
 	"encoding/json"
 	"fmt"
 	"io"
+	"log"
 	"net/http"
 	"net/http/httptest"
 	"net/url"
 	"os"
 	"os/exec"
+	"runtime/debug"
 	"strings"
 	"sync"
 	"testing"
@@ -93,10 +95,10 @@ var provSpace = engine.Space{
 	engine.D("dev", "on", "off"),
 	engine.D("xcaps", "all", "none"), // TerminateSessionFromRequest, exchange verifier, userinfo-from-request, JWT profile token type
 	// endpoints
-	engine.D("eps", "default", "auth", "token", "introspect", "userinfo", "revoke", "endsession", "keys", "device", "all6", "abs-token-keys", "abs-auth", "nested", "trailing"),
+	engine.D("eps", "default", "auth", "token", "introspect", "userinfo", "revoke", "endsession", "keys", "device", "all6", "abs-token-keys", "abs-auth", "nested", "trailing", "nil-token"),
 	engine.D("legacyEP", "default", "own", "mirror", "nil-device", "nil-optional", "nil-userinfo-keys", "abs"),
 	// issuer strategy and the Host the client talks to
-	engine.D("issuer", "static", "static-path", "static-slash", "static-http", "host", "host-/p", "host-p", "host-insecure", "fwd-header", "fwd-nohost", "fwd-absent", "fwd-custom"),
+	engine.D("issuer", "static", "static-path", "static-slash", "static-http", "host", "host-/p", "host-p", "host-insecure", "fwd-header", "fwd-nohost", "fwd-absent", "fwd-custom", "fwd-malformed"),
 	engine.D("host", hostA, hostB),
 	engine.D("router", "provider", "legacy"),
 	engine.D("probe", "issuer", "urls", "g:code", "g:refresh", "g:cc", "g:te", "g:bearer", "g:device", "pkce", "reqobj"),
@@ -250,6 +252,8 @@ func providerOptions(eps string) ([]op.Option, map[string]string) {
 		return []op.Option{op.WithCustomTokenEndpoint(e("oauth/v2/token")), op.WithCustomIntrospectionEndpoint(e("/oauth/v2/introspect")), op.WithCustomKeysEndpoint(e("oauth/v2/keys"))}, abs
 	case "trailing":
 		return []op.Option{op.WithCustomKeysEndpoint(e("x/keys/")), op.WithCustomUserinfoEndpoint(e("/x/userinfo/"))}, abs
+	case "nil-token":
+		return []op.Option{op.WithCustomTokenEndpoint(nil)}, abs
 	}
 	panic("eps " + eps)
 }
@@ -312,6 +316,8 @@ func issuerStrategy(kind string) (func(bool) (op.IssuerFromRequest, error), []op
 		return op.IssuerFromForwardedOrHost("/p"), nil, map[string]string{"Forwarded": "for=192.0.2.7"}, "forwarded"
 	case "fwd-absent":
 		return op.IssuerFromForwardedOrHost(""), nil, nil, "forwarded"
+	case "fwd-malformed": // unparsable header: the request Host is the documented fallback
+		return op.IssuerFromForwardedOrHost(""), nil, map[string]string{"Forwarded": `host="unterminated`}, "forwarded"
 	case "fwd-custom":
 		return op.IssuerFromForwardedOrHost("", op.WithIssuerFromCustomHeaders("forwarded", "x-zitadel-forwarded")), nil,
 			map[string]string{"X-Zitadel-Forwarded": "host=custom.example"}, "forwarded"
@@ -534,6 +540,9 @@ func provCase(v engine.Vec) engine.Result {
 
 	restoreDefaults()
 	r, err := rig.New(rig.Opts{OP: cfg, Caps: &caps, IssuerFn: issFn, Options: append(issOpts, epOpts...), Endpoints: legEP})
+	if err != nil && g("eps") == "nil-token" {
+		return engine.OK("nil-endpoint-option", "construct-refused")
+	}
 	if err != nil {
 		return engine.Bad("valid-configuration-constructs", "construct-error", "C19/construct-failed/"+g("eps")+"/"+g("issuer"), err.Error())
 	}
@@ -767,10 +776,13 @@ func (e *env) probeGrant(short string) engine.Result {
 		auth = rig.Basic("svc", e.r.Core.Cfg.ServiceUsers["svc"].Secret)
 		form.Set("scope", "openid")
 	case "te":
-		tr, se := e.tokens("web", "openid")
+		// subject token: a JWT access token (an opaque one runs into a nil dereference that
+		// belongs to C09/C15, not to this property)
+		tr, se := e.tokens("webjwt", "openid")
 		if se != nil {
 			return engine.Bad(rule, "no-token:"+se.stage, "C19/code-flow-failed/"+e.router+"/"+se.stage, "cannot obtain a subject token: "+se.what)
 		}
+		auth = rig.Basic("webjwt", e.secret("webjwt"))
 		form.Set("subject_token", tr.Str("access_token"))
 		form.Set("subject_token_type", string(oidc.AccessTokenType))
 	case "bearer":
@@ -1313,6 +1325,8 @@ func TestIsolatedWorker(t *testing.T) {
 	if os.Getenv("VERIF_C19_CHILD") == "" {
 		return
 	}
+	log.SetOutput(io.Discard) // hostFromForwarded reports unparsable headers through the std logger
+	debug.SetGCPercent(800) // short-lived providers: trade a few MB for less collector time
 	out := os.NewFile(3, "results")
 	w := bufio.NewWriter(out)
 	sc := bufio.NewScanner(os.Stdin)
@@ -1361,7 +1375,13 @@ func TestCheck(t *testing.T) {
 			return func(v engine.Vec) engine.Result { return p.run(w, part, v) }
 		}
 	}
-	k := engine.Pick(c, 1, 2)
+	// quick: flags x capabilities x router x probe at default endpoints/issuer, and the
+	// endpoint/issuer product with every single flag/capability deviation; thorough: one
+	// resp. two deviations more.
+	ks := engine.Pick(c, []int{0, 1}, []int{1, 2})
+	c.RunE1(engine.E1{Part: "issuer-strings", Space: issSpace, K: len(issSpace), NewWorker: worker("issuer-strings")})
+	c.RunE1(engine.E1{Part: "issuer-paths", Space: pathSpace, K: len(pathSpace), NewWorker: worker("issuer-paths")})
+	c.RunE1(engine.E1{Part: "rp-discover", Space: discSpace, K: len(discSpace), NewWorker: worker("rp-discover")})
 	ri, li := provSpace.Idx("router"), provSpace.Idx("legacyEP")
 	c.RunE1(engine.E1{
 		Part:  "provider",
@@ -1370,14 +1390,11 @@ func TestCheck(t *testing.T) {
 			{"s256", "post", "pkjwt", "refresh", "reqobj", "bcl", "cc", "te", "dev", "router", "probe"},
 			{"eps", "legacyEP", "issuer", "host", "router", "probe"},
 		},
-		K: k,
+		Ks: ks,
 		// the LegacyServer's own Endpoints do not exist on the Provider router
 		Skip:      func(v engine.Vec) bool { return v[ri] == 0 && v[li] != 0 },
 		NewWorker: worker("provider"),
 	})
-	c.RunE1(engine.E1{Part: "issuer-strings", Space: issSpace, K: len(issSpace), NewWorker: worker("issuer-strings")})
-	c.RunE1(engine.E1{Part: "issuer-paths", Space: pathSpace, K: len(pathSpace), NewWorker: worker("issuer-paths")})
-	c.RunE1(engine.E1{Part: "rp-discover", Space: discSpace, K: len(discSpace), NewWorker: worker("rp-discover")})
 	p.close()
 	c.Finish()
 }
